@@ -178,16 +178,18 @@ func init() {
 		return mkScalar(a, types.Int64)
 	}
 	symExternals[rtPkg+"Time"] = func(fr *frame, args []value) value {
-		t := X.fresh(labelOf(args[0]), BV(64))
-		X.InputLog = append(X.InputLog, InputRec{K: "time", L: labelOf(args[0]), Vars: []string{t.Name}})
+		tv := X.fresh(labelOf(args[0]), BV(64))
+		X.InputLog = append(X.InputLog, InputRec{K: "time", L: labelOf(args[0]), Vars: []string{tv.Name}})
+		t := X.pinOr(tv)
 		X.addPC(BVCmp("bvsge", t, BVConst(0, 64)), BVCmp("bvslt", t, BVConst(1<<62, 64)))
-		return mkTime(uint64(1), symv{t: t, k: types.Int64})
+		return mkTime(uint64(1), mkScalar(t, types.Int64))
 	}
 	symExternals[rtPkg+"Duration"] = func(fr *frame, args []value) value {
-		t := X.fresh(labelOf(args[0]), BV(64))
-		X.InputLog = append(X.InputLog, InputRec{K: "duration", L: labelOf(args[0]), Vars: []string{t.Name}})
+		tv := X.fresh(labelOf(args[0]), BV(64))
+		X.InputLog = append(X.InputLog, InputRec{K: "duration", L: labelOf(args[0]), Vars: []string{tv.Name}})
+		t := X.pinOr(tv)
 		X.addPC(BVCmp("bvsgt", t, BVConst(uint64(1<<63+1<<62), 64)), BVCmp("bvslt", t, BVConst(1<<61, 64)))
-		return symv{t: t, k: types.Int64}
+		return mkScalar(t, types.Int64)
 	}
 
 	// strings helpers with symbolic awareness where the real code uses assembly.
